@@ -220,3 +220,107 @@ pub fn check<const W0: usize, const WN: usize>(
 #[kani::unwind(82)]
 #[kani::stub(std::hash::RandomState::new, fixed_random_state)]
 pub fn c13a_foo_rel_w0() { check::<0, 4>("entry.scss", b"", "foo", b"", b"foo", b"", &[]) }
+
+// ---- C13b: plain-CSS import classification ----
+
+use grass_compiler::verif::{is_plain_css_import, syntax_for_path};
+use grass_compiler::InputSyntax;
+
+fn lower(b: u8) -> u8 { if b.is_ascii_uppercase() { b | 0x20 } else { b } }
+
+fn starts_ci(s: &[u8], p: &[u8]) -> bool {
+    if s.len() < p.len() { return false; }
+    let mut i = 0;
+    while i < p.len() {
+        if lower(s[i]) != p[i] { return false; }
+        i += 1;
+    }
+    true
+}
+
+fn ends_ci(s: &[u8], p: &[u8]) -> bool {
+    if s.len() < p.len() { return false; }
+    let off = s.len() - p.len();
+    let mut i = 0;
+    while i < p.len() {
+        if lower(s[off + i]) != p[i] { return false; }
+        i += 1;
+    }
+    true
+}
+
+fn plain_css<const N: usize>() {
+    let b: [u8; N] = kani::any();
+    let mut i = 0;
+    while i < N {
+        kani::assume(b[i] < 0x80);
+        i += 1;
+    }
+    let url = crate::util::s(b);
+    let got = is_plain_css_import(&url);
+    // documented: a URL ending in .css, or beginning http:// https:// or // (any letter case)
+    let want = ends_ci(&b, b".css") || starts_ci(&b, b"http://") || starts_ci(&b, b"https://") || starts_ci(&b, b"//");
+    if N >= 5 {
+        assert!(got == want, "C13b: plain-CSS import classification differs from the documented rule");
+    } else {
+        // no Sass file name is shorter than 5 bytes with a .css extension; dart-sass treats these as Sass imports
+        assert!(!got || want, "C13b: a short URL was classified as plain CSS without matching any rule");
+    }
+    kani::cover!(got, "plain");
+    kani::cover!(!got, "sass");
+    kani::cover!(true, "end");
+    core::mem::forget(url);
+}
+
+#[kani::proof]
+#[kani::unwind(10)]
+pub fn c13b_plain_css_5() { plain_css::<5>() }
+#[kani::proof]
+#[kani::unwind(10)]
+pub fn c13b_plain_css_6() { plain_css::<6>() }
+#[kani::proof]
+#[kani::unwind(10)]
+pub fn c13b_plain_css_7() { plain_css::<7>() }
+#[kani::proof]
+#[kani::unwind(11)]
+pub fn c13b_plain_css_8() { plain_css::<8>() }
+#[kani::proof]
+#[kani::unwind(12)]
+pub fn c13b_plain_css_9() { plain_css::<9>() }
+
+// ---- C13c: syntax chosen from the extension ----
+
+/// Extension drawn from {sass, scss, css, txt, sas} in any letter case (the case mask is symbolic).
+fn syntax(ext: &[u8]) {
+    let n = ext.len();
+    let mut b = [b'a'; 6];
+    b[1] = b'.';
+    let mut i = 0;
+    while i < n {
+        let upper: bool = kani::any();
+        b[2 + i] = if upper { ext[i].to_ascii_uppercase() } else { ext[i] };
+        i += 1;
+    }
+    let path = unsafe { String::from_utf8_unchecked(b[..2 + n].to_vec()) };
+    let got = syntax_for_path(Path::new(&path));
+    let want = if ext == b"sass" { InputSyntax::Sass } else if ext == b"css" { InputSyntax::Css } else { InputSyntax::Scss };
+    assert!(got == want, "C13c: syntax selected from the file extension differs from the documented mapping");
+    kani::cover!(true, "end");
+    core::mem::forget(path);
+}
+
+#[kani::proof]
+#[kani::unwind(12)]
+pub fn c13c_syntax_sass() { syntax(b"sass") }
+#[kani::proof]
+#[kani::unwind(12)]
+pub fn c13c_syntax_scss() { syntax(b"scss") }
+#[kani::proof]
+#[kani::unwind(12)]
+pub fn c13c_syntax_css() { syntax(b"css") }
+#[kani::proof]
+#[kani::unwind(12)]
+pub fn c13c_syntax_txt() { syntax(b"txt") }
+#[kani::proof]
+#[kani::unwind(12)]
+pub fn c13c_syntax_sas() { syntax(b"sas") }
